@@ -13,8 +13,12 @@
            ([C07_killed_statement_reruns_proof], [C07_partial_log_entries_proof]).
    Part F: interrupts: [C07_interrupt_cleanup_hist_proof], [good_buildI_proof] (even HistDefs.Good is
            kept), [C07_interrupt_recovery_proof] (no side condition).
-   Part G: convergence after ANY accepted build from a GoodK state ([C02F_converges],
+   Part G: convergence after ANY accepted build from a GoodK state ([C02F_converges_proof],
            [C07_converges_after_recovery_proof]).
+   Part H: the statement-level hypothesis [taint_safe_stmt] (ninja's dirty test is per statement):
+           [scan_clean_correctT], [C01S_build], [C07_kill_recovery_stmt_proof],
+           [taint_safe_stmt_weaker_proof]; conservativity ([buildK_after_last_proof],
+           [kill_after_last_entry_proof]); [kill_benign_no_entry_proof].
    After the section: the refutation by computation ([C07_kill_recovery_refuted_proof]: the kill
    variant of the listed finding failed-cmd-rewrote-output) and the non-vacuity witnesses. *)
 From NinjaV Require Import Engine.CrashDefs.
@@ -976,7 +980,7 @@ Qed.
 (* C02 for one invocation from a GoodK state: whatever failed, was killed or interrupted before, and
    whether or not the contents are right -- immediately after an accepted build the scan of the same
    targets is accepted and wants nothing *)
-Theorem C02F_converges st T st' :
+Theorem C02F_converges_proof st T st' :
   GoodF cmd g st -> no_inputless_phony g = true -> build cmd g st T = Some st' ->
   exists s p, scan (G st') (W st') T = ScanOk s p /\ forall e, p_want p e <> Some WantToStart.
 Proof.
@@ -999,11 +1003,11 @@ Proof.
     apply (Hclean e Hn o Ho Hmd).
 Qed.
 
-Theorem C02F_second_build_idle st T st' :
+Theorem C02F_second_build_idle_proof st T st' :
   GoodF cmd g st -> no_inputless_phony g = true -> build cmd g st T = Some st' ->
   build cmd g st' T = Some st'.
 Proof.
-  intros HG Hnip H. destruct (C02F_converges st T st' HG Hnip H) as [s [p [Hs Hc]]].
+  intros HG Hnip H. destruct (C02F_converges_proof st T st' HG Hnip H) as [s [p [Hs Hc]]].
   unfold build. rewrite Hs. f_equal. apply build_upto_idle. exact Hc.
 Qed.
 
@@ -1017,8 +1021,276 @@ Theorem C07_converges_after_recovery_proof h T st' :
   build cmd g st' T = Some st'.
 Proof.
   intros Hok Hnip Hb. pose proof (goodK_hist_proof h _ goodK_init_proof Hok) as HG. split.
-  - apply (C02F_converges _ T st' HG Hnip Hb).
-  - apply (C02F_second_build_idle _ T st' HG Hnip Hb).
+  - apply (C02F_converges_proof _ T st' HG Hnip Hb).
+  - apply (C02F_second_build_idle_proof _ T st' HG Hnip Hb).
+Qed.
+
+(* ================================================================== Part H: the statement-level hypothesis *)
+(* a statement with a reason is dirty in every one of its outputs *)
+Lemma reason_md st e : StateOkF g st -> phony e = false -> StmtReason g true st e ->
+  forall o, In o (outs e) -> must_dirty (G st) (W st) o.
+Proof.
+  intros HS Hph [o' [Ho' Hr]] o Ho.
+  apply (must_dirty_same_prod (G st) (W st) o' o e (o_prod g Hwf e o' Ho') (o_prod g Hwf e o Ho)).
+  destruct Hr as [Hst|[_ Hd]].
+  - apply (stale_md g Hwf Hwg Hfrag st e o' HS Hph Ho' Hst).
+  - apply (md_base g Hwf st e o' Ho' Hph). left. cbn [world_of w_mtime]. unfold mtime_of. rewrite Hd. reflexivity.
+Qed.
+
+Lemma stmt_reasonb_sound wh st e : stmt_reasonb g wh st e = true -> StmtReason g wh st e.
+Proof.
+  unfold stmt_reasonb. intros H. apply existsb_exists in H. destruct H as [o [Ho Hb]].
+  exists o. split; [exact Ho|]. apply orb_true_iff in Hb. destruct Hb as [Hb|Hb].
+  - left. apply stale_entryb_sound. exact Hb.
+  - right. apply andb_true_iff in Hb. destruct Hb as [Hw Hd]. split; [exact Hw|].
+    destruct (h_disk st o); [discriminate|reflexivity].
+Qed.
+
+Lemma taint_okSb_sound wh st : taint_okSb g wh st = true -> TaintOkS g wh st.
+Proof.
+  intros H e o Hph Ho Ht. pose proof (edges_all_spec g _ e H (out_lt g Hwf Hwg e o Ho)) as He. cbn beta in He.
+  rewrite Hph in He. cbn [orb] in He. apply orb_true_iff in He. destruct He as [He|He].
+  - exfalso. apply negb_true_iff in He.
+    assert (Hex : existsb (tainted st) (outs e) = true) by (apply existsb_exists; exists o; split; assumption).
+    congruence.
+  - apply stmt_reasonb_sound. exact He.
+Qed.
+
+Lemma taintok_S wh st : TaintOk g wh st -> TaintOkS g wh st.
+Proof. intros H e o Hph Ho Ht. exists o. split; [exact Ho|left; apply (H e o Hph Ho Ht)]. Qed.
+
+(* the per-output hypothesis of HistFailDefs implies the statement-level one, as booleans *)
+Theorem taint_safe_stmt_weaker_proof st : taint_safe g st = true -> taint_safe_stmt g st = true.
+Proof.
+  unfold taint_safe, taint_safe_stmt, taint_okb, taint_okSb, edges_all. intros H.
+  rewrite forallb_forall in *. intros e He. specialize (H e He). cbn beta in *.
+  destruct (phony e); [reflexivity|]. cbn [orb] in *.
+  destruct (existsb (tainted st) (outs e)) eqn:Hex; [|reflexivity]. cbn [negb orb].
+  apply existsb_exists in Hex. destruct Hex as [o [Ho Ht]].
+  rewrite forallb_forall in H. specialize (H o Ho). rewrite Ht in H. cbn [negb orb] in H.
+  unfold stmt_reasonb. apply existsb_exists. exists o. split; [exact Ho|]. rewrite H. reflexivity.
+Qed.
+
+(* HistFailProofs.scan_clean_correctF with "a tainted output is must_dirty" as the hypothesis *)
+Theorem scan_clean_correctT st : GoodF cmd g st ->
+  (forall e o, phony e = false -> In o (outs e) -> tainted st o = true -> must_dirty (G st) (W st) o) ->
+  forall e, (e < g_nedges g)%nat -> phony e = false ->
+  forall o, In o (outs e) -> ~ must_dirty (G st) (W st) o ->
+  exists m c, h_disk st o = Some (m, c) /\ clean_of cmd g st o = Some c.
+Proof.
+  intros HG HT. pose proof HG as [[A [B [C [D E]]]] L].
+  induction e as [e IH] using lt_wf_ind. intros He Hph o Ho Hc.
+  destruct (h_disk st o) as [[mo c]|] eqn:Hdo.
+  2:{ exfalso. apply Hc. apply (md_base g Hwf st e o Ho Hph). left. cbn [world_of w_mtime]. unfold mtime_of. rewrite Hdo. reflexivity. }
+  destruct (h_ghost st o) as [S|] eqn:Hgo.
+  2:{ exfalso. apply Hc. apply (HT e o Hph Ho). unfold tainted. rewrite Hdo, Hgo. reflexivity. }
+  destruct (h_blog st o) as [[h m]|] eqn:Hbo.
+  2:{ exfalso. apply (E o e (o_prod g Hwf e o Ho) Hph); [rewrite Hdo; discriminate|rewrite Hgo; discriminate|exact Hbo]. }
+  destruct (L e o h m mo c S Hph Ho Hbo Hdo Hgo) as [HmS [HcS Hf]].
+  exists mo, c. split; [reflexivity|].
+  unfold clean_of. rewrite (clean_build_out cmd g Htopo (h_hash st) (sources_of g st) e o He (o_prod g Hwf e o Ho)). rewrite Hph.
+  change (clean_build cmd g (h_hash st) (sources_of g st)) with (clean_of cmd g st).
+  assert (HSeq : S = map (fun i => (i, clean_of cmd g st i)) (nonoo_ins g e)).
+  { apply snapshot_eq; [exact HmS|]. intros i ci Hi.
+    assert (Hin : In i (nonoo_ins g e)) by (rewrite <- HmS; apply (in_map fst S (i, ci) Hi)).
+    destruct (Hf i ci Hi) as [F1 F2].
+    assert (Hci : ~ must_dirty (G st) (W st) i) by (apply (clean_input g Hwg Hfrag st (W st) o e i (o_prod g Hwf e o Ho) Hin Hc)).
+    assert (Hfresh : forall mi c', h_disk st i = Some (mi, c') -> ci = Some c').
+    { intros mi c' Hdi. apply (F2 mi c' Hdi). destruct (Z_le_gt_dec mi m) as [Hle|Hgt]; [exact Hle|].
+      exfalso. apply Hc. apply (md_time g Hwf Hfrag st e o h m i He Ho Hph Hbo Hin).
+      apply nt_file; cbn [world_of w_mtime]; unfold mtime_of; rewrite Hdi; [|lia].
+      specialize (B i mi c' Hdi). lia. }
+    destruct (g_producer g i) as [e'|] eqn:Hpi.
+    - pose proof (in_below g Htopo e i He (nonoo_in g e i Hin)) as Hlt. unfold below in Hlt. rewrite Hpi in Hlt.
+      assert (He' : (e' < g_nedges g)%nat) by lia.
+      destruct (phony e') eqn:Hph'.
+      + rewrite (F1 e' eq_refl Hph'). unfold clean_of.
+        rewrite (clean_build_out cmd g Htopo _ _ e' i He' Hpi), Hph'. reflexivity.
+      + destruct (IH e' Hlt He' Hph' i (p_out g Hwf i e' Hpi) Hci) as [mi [c' [Hdi Hcl]]].
+        rewrite Hcl. apply (Hfresh mi c' Hdi).
+    - rewrite (clean_of_leaf cmd g st i Hpi). unfold content_of.
+      destruct (h_disk st i) as [[mi c']|] eqn:Hdi; [apply (Hfresh mi c' eq_refl)|].
+      exfalso. apply Hci. apply md_leaf; [exact Hpi|]. cbn [world_of w_mtime]. unfold mtime_of. rewrite Hdi. reflexivity. }
+  rewrite <- HSeq. f_equal. rewrite HcS.
+  destruct (ei_generator (g_edge g e)) eqn:Hgn; [apply Hgen; exact Hgn|].
+  destruct (N.eq_dec h (h_hash st e)) as [->|Hne]; [reflexivity|].
+  exfalso. apply Hc. apply (md_base g Hwf st e o Ho Hph). right. cbn [world_of w_blog]. rewrite Hbo.
+  split; [exact Hgn|exact Hne].
+Qed.
+
+Lemma taintokS_td st : GoodF cmd g st -> TaintOkS g true st ->
+  forall e o, phony e = false -> In o (outs e) -> tainted st o = true -> must_dirty (G st) (W st) o.
+Proof. intros HG HT e o Hph Ho Ht. apply (reason_md st e (proj1 HG) Hph (HT e o Hph Ho Ht) o Ho). Qed.
+
+(* a successful command keeps the reasons of the other statements, and its own outputs are untainted *)
+Lemma taintokS_run st k :
+  GoodF cmd g st -> TaintOkS g true st -> (k < g_nedges g)%nat -> phony k = false ->
+  TaintOkS g true (run_edge cmd g st k).
+Proof.
+  intros HG HT Hk Hphk. pose proof HG as [[A [B _]] _].
+  destruct (run_edge_spec cmd g st k A B) as [Hh [Hc [Hout [Hfs [Hd [[m [Hm Hlog]] _]]]]]]. cbn zeta in *.
+  set (st' := run_edge cmd g st k) in *.
+  intros e o Hph Ho Ht.
+  assert (Hnk : ~ In o (outs k)).
+  { intros Hin. destruct (Hlog o Hin) as [_ [Hg' _]]. unfold tainted in Ht. rewrite Hg' in Ht.
+    destruct (h_disk st' o); discriminate. }
+  destruct (Hout o Hnk) as [E1 [E2 E3]].
+  assert (Ht0 : tainted st o = true) by (rewrite <- Ht; symmetry; apply tainted_eq; assumption).
+  destruct (HT e o Hph Ho Ht0) as [o' [Ho' Hr]]. exists o'. split; [exact Ho'|].
+  assert (Hnk' : ~ In o' (outs k)).
+  { intros Hin. apply Hnk. rewrite <- (same_prod k e o' Hin Ho'). exact Ho. }
+  destruct (Hout o' Hnk') as [F1 [F2 _]].
+  destruct Hr as [Hst|[Hw Hdn]].
+  - left. apply (stale_mono g true st st' e o' (proj1 HG) (fresh_chg st _ (h_clock st + 1) _ _ ltac:(lia) Hfs) F2);
+      [intros _; rewrite Hh; reflexivity|exact Hst].
+  - right. split; [exact Hw|rewrite F1; exact Hdn].
+Qed.
+
+Section OneBuildS.
+Variables (st0 : hstate) (T : list node) (s0 : sstate) (p0 : plan).
+Hypothesis HG0 : GoodF cmd g st0.
+Hypothesis Hscan : scan (G st0) (W st0) T = ScanOk s0 p0.
+Hypothesis HT0 : TaintOkS g true st0.
+
+Notation stk k := (build_upto cmd g p0 k st0).
+
+Lemma invS_build_upto k : (k <= g_nedges g)%nat -> GoodF cmd g (stk k) /\ TaintOkS g true (stk k).
+Proof.
+  apply (build_upto_ind cmd g (fun st => GoodF cmd g st /\ TaintOkS g true st) p0 st0); [|split; assumption].
+  intros st1 e [H1 H2] He Hph. split; [apply (goodF_run cmd g Hwf Htopo); assumption|apply taintokS_run; assumption].
+Qed.
+
+(* HistFailProofs.build_inv_c01F under the statement-level hypothesis *)
+Lemma build_inv_c01S k : (k <= g_nedges g)%nat ->
+  forall e, (e < k)%nat -> needed g T e -> phony e = false ->
+  forall o, In o (outs e) ->
+    exists m c, h_disk (stk k) o = Some (m, c) /\ clean_of cmd g st0 o = Some c.
+Proof.
+  induction k as [|k IH]; intros Hk e He Hn Hph o Ho; [lia|].
+  destruct (build_inv1F cmd g Hwf Htopo st0 p0 HG0 k ltac:(lia)) as [HGk [Hh [Hf _]]].
+  pose proof (proj2 (invS_build_upto k ltac:(lia))) as HTk.
+  assert (IHk : forall e', (e' < k)%nat -> needed g T e' -> phony e' = false ->
+            forall o', In o' (outs e') ->
+            exists m c, h_disk (stk k) o' = Some (m, c) /\ clean_of cmd g st0 o' = Some c)
+    by (apply IH; lia).
+  set (st := stk k) in *.
+  destruct (Nat.eq_dec e k) as [->|Hne].
+  2:{ destruct (IHk e ltac:(lia) Hn Hph o Ho) as [m [c [Hd Hcl]]].
+      destruct (step_cases cmd g st0 p0 k) as [[Hs _]|[Hs _]]; rewrite Hs; fold st; [|exists m, c; split; assumption].
+      pose proof HGk as [[A [B _]] _].
+      destruct (run_edge_spec cmd g st k A B) as [_ [_ [Hout _]]]. cbn zeta in Hout.
+      assert (Hnin : ~ In o (outs k)).
+      { intros Hin. pose proof (o_prod g Hwf k o Hin) as H1. rewrite (o_prod g Hwf e o Ho) in H1. congruence. }
+      exists m, c. rewrite (proj1 (Hout o Hnin)). split; assumption. }
+  assert (Hcl : clean_of cmd g st0 o =
+                Some (cmd k (h_hash st0 k) (map (fun i => (i, clean_of cmd g st0 i)) (nonoo_ins g k)) o)).
+  { unfold clean_of. rewrite (clean_build_out cmd g Htopo _ _ k o Hk (o_prod g Hwf k o Ho)), Hph. reflexivity. }
+  destruct (step_cases cmd g st0 p0 k) as [[Hs [Hw _]]|[Hs Hskip]]; rewrite Hs; fold st.
+  - pose proof HGk as [[A [B [C [D E]]]] L].
+    destruct (run_edge_spec cmd g st k A B) as [_ [_ [_ [_ [_ [[m [_ Hlog]] _]]]]]]. cbn zeta in Hlog.
+    destruct (Hlog o Ho) as [_ [_ [mo Hd]]]. exists mo. eexists. split; [exact Hd|].
+    rewrite Hcl, Hh. f_equal. f_equal. unfold reads. apply map_ext_in. intros i Hi. f_equal.
+    destruct Hn as [n [Rn Hpn]].
+    destruct (g_producer g i) as [e'|] eqn:Hpi.
+    + pose proof (in_below g Htopo k i Hk (nonoo_in g k i Hi)) as Hlt. unfold below in Hlt. rewrite Hpi in Hlt.
+      destruct (phony e') eqn:Hph'.
+      * unfold content_of. rewrite (D i e' Hpi Hph'). unfold clean_of.
+        rewrite (clean_build_out cmd g Htopo _ _ e' i ltac:(lia) Hpi), Hph'. reflexivity.
+      * assert (Hn' : needed g T e').
+        { exists i. split; [|exact Hpi]. apply (reach_step g (manifest_ins g) T n i Rn).
+          exists k. split; [exact Hpn|apply nonoo_in; exact Hi]. }
+        destruct (IHk e' Hlt Hn' Hph' i (p_out g Hwf i e' Hpi)) as [mi [ci [Hdi Hci]]].
+        unfold content_of. rewrite Hdi, Hci. reflexivity.
+    + rewrite (clean_of_leaf cmd g st0 i Hpi). unfold content_of. rewrite (frame_leaf g st0 p0 k st i Hf Hpi). reflexivity.
+  - destruct Hskip as [Hp|[Hw|Hdn]]; [congruence| |].
+    + assert (Hc0 : ~ must_dirty (G st0) (W st0) o).
+      { intros Hmd.
+        destruct (want_complete g Hwf Hwg Hfrag st0 T s0 p0 Hscan k Hn (ex_intro _ o (conj Ho Hmd))) as [Hw' _]; [|congruence].
+        intros [Hp _]. congruence. }
+      destruct (scan_clean_correctT st0 HG0 (taintokS_td st0 HG0 HT0) k Hk Hph o Ho Hc0) as [m [c [Hd Hc]]].
+      exists m, c. split; [|exact Hc].
+      rewrite (proj1 (frame_later g st0 p0 k st o k Hf (o_prod g Hwf k o Ho) (le_n k))). exact Hd.
+    + pose proof (dirty_now_spec g Hwf Hwg Hfrag st k Hdn o Ho) as Hc.
+      destruct (scan_clean_correctT st HGk (taintokS_td st HGk HTk) k Hk Hph o Ho Hc) as [m [c [Hd Hcc]]].
+      exists m, c. split; [exact Hd|]. rewrite <- Hcc. symmetry. apply clean_of_ext; [exact Hh|].
+      intros x Hx. unfold content_of. rewrite (frame_leaf g st0 p0 k st x Hf Hx). reflexivity.
+Qed.
+
+End OneBuildS.
+
+(* C01 for one invocation under the statement-level hypothesis *)
+Theorem C01S_build st T st' :
+  GoodF cmd g st -> TaintOkS g true st -> build cmd g st T = Some st' ->
+  forall n, reach g T n -> content_of st' n = clean_of cmd g st' n.
+Proof.
+  intros HG HT H n Rn. pose proof (goodF_build cmd g Hwf Htopo st T st' HG H) as HG'.
+  unfold build in H.
+  destruct (scan (G st) (W st) T) as [c|m d|e| |s p] eqn:Hs; try discriminate. inversion H; subst st'.
+  set (st' := build_upto cmd g p (g_nedges g) st) in *.
+  destruct (build_inv1F cmd g Hwf Htopo st p HG (g_nedges g) (le_n _)) as [_ [Hh [Hf _]]].
+  destruct (g_producer g n) as [e|] eqn:Hp; [|symmetry; apply clean_of_leaf; exact Hp].
+  pose proof (Hwg n e Hp) as He.
+  rewrite (clean_of_ext cmd g st st' Hh)
+    by (intros x Hx; unfold content_of; rewrite (frame_leaf g st p _ st' x Hf Hx); reflexivity).
+  destruct (phony e) eqn:Hph.
+  - destruct HG' as [[_ [_ [_ [D _]]]] _]. unfold content_of. rewrite (D n e Hp Hph).
+    unfold clean_of. rewrite (clean_build_out cmd g Htopo _ _ e n He Hp), Hph. reflexivity.
+  - destruct (build_inv_c01S st T s p HG Hs HT (g_nedges g) (le_n _) e He (ex_intro _ n (conj Rn Hp)) Hph n (p_out g Hwf n e Hp))
+      as [m [c [Hd Hc]]].
+    unfold content_of. unfold st'. rewrite Hd, Hc. reflexivity.
+Qed.
+
+(* (2') recovery under the weakest hypothesis found: in the state ninja is started in, every
+   half-written output belongs to a statement that has a reason of its own to run: a stale entry or a
+   missing file among ALL its outputs *)
+Theorem C07_kill_recovery_stmt_proof h T st' :
+  khist_ok g h = true ->
+  taint_safe_stmt g (run_khist cmd g (init_hstate g) h) = true ->
+  build cmd g (run_khist cmd g (init_hstate g) h) T = Some st' ->
+  forall n, reach g T n -> content_of st' n = clean_of cmd g st' n.
+Proof.
+  intros Hok Hts Hb.
+  apply (C01S_build _ T st' (goodK_hist_proof h _ goodK_init_proof Hok) (taint_okSb_sound true _ Hts) Hb).
+Qed.
+
+(* ---- the extension is conservative *)
+(* a kill after the last statement: the invocation is [build] *)
+Theorem buildK_after_last_proof st T cp :
+  (g_nedges g <= cp_pos cp)%nat -> buildK cmd g st T cp = build cmd g st T.
+Proof.
+  intros H. unfold buildK, buildK_full, build, buildK_at.
+  destruct (scan (G st) (W st) T) as [c|m d|e| |s p]; try reflexivity.
+  destruct (Nat.ltb_spec (cp_pos cp) (g_nedges g)) as [Hlt|_]; [lia|reflexivity].
+Qed.
+
+(* a kill after the last log entry of statement e is a kill before statement e+1 *)
+Theorem kill_after_last_entry_proof st T e j :
+  (length (outs e) <= j)%nat -> (S e < g_nedges g)%nat ->
+  buildK cmd g st T (mkCP e (KLogged j)) = buildK cmd g st T (mkCP (S e) KBefore).
+Proof.
+  intros Hj He. unfold buildK, buildK_full, buildK_at. cbn [cp_pos cp_at].
+  destruct (scan (G st) (W st) T) as [c|m d|e0| |s p]; try reflexivity.
+  destruct (Nat.ltb_spec e (g_nedges g)) as [_|Hge]; [|lia].
+  destruct (Nat.ltb_spec (S e) (g_nedges g)) as [_|Hge]; [|lia].
+  rewrite build_upto_S. unfold build_step. fold (starts g p (build_upto cmd g p e st) e).
+  destruct (starts g p (build_upto cmd g p e st) e); cbn [kill_edge].
+  - destruct (Nat.leb_spec (length (outs e)) j) as [_|Hgt]; [|lia].
+    destruct (starts g p (run_edge cmd g (build_upto cmd g p e st) e) (S e)); reflexivity.
+  - destruct (starts g p (build_upto cmd g p e st) (S e)); reflexivity.
+Qed.
+
+(* a statement none of whose outputs has a log entry (its first run) can be killed anywhere, unless
+   it is a generator rule (which needs no entry to be clean) *)
+Theorem kill_benign_no_entry_proof stk e a :
+  ei_generator (g_edge g e) = false -> (forall o, In o (outs e) -> h_blog stk o = None) ->
+  kill_benign g stk e a = true.
+Proof.
+  intros Hgn Hb.
+  assert (Hst : forall o, In o (outs e) -> stale_entryb g false stk e o = true).
+  { intros o Ho. unfold stale_entryb. rewrite (Hb o Ho), Hgn. reflexivity. }
+  destruct a as [| |k f|j]; cbn [kill_benign]; try reflexivity.
+  - apply forallb_forall. intros o Ho. apply Hst. apply (firstn_incl k (outs e) o Ho).
+  - apply forallb_forall. intros o Ho. apply unlogged_in in Ho. rewrite (Hst o (proj1 Ho)). apply orb_true_r.
 Qed.
 
 End HistK.
@@ -1132,7 +1404,7 @@ Theorem C07_kill_then_build_nonvacuous_proof :
 Proof.
   eexists. eexists. eexists.
   split; [apply goodF_of_good; exact ExK_st4_good|]. split; [vm_compute; reflexivity|].
-  split; [vm_compute; reflexivity|]. split; vm_compute; reflexivity.
+  split; [vm_compute; reflexivity|]. split; [vm_compute; reflexivity|vm_compute; reflexivity].
 Qed.
 
 (* premises of [C07_killed_statement_reruns_proof] / [C07_partial_log_entries_proof]: the two-output
@@ -1170,7 +1442,7 @@ Proof.
   split; [exact ExK_st4_good|]. split; [vm_compute; reflexivity|].
   split; [vm_compute; reflexivity|]. split; [vm_compute; reflexivity|].
   split; [vm_compute; reflexivity|]. split; [vm_compute; reflexivity|].
-  split; vm_compute; reflexivity.
+  split; [vm_compute; reflexivity|vm_compute; reflexivity].
 Qed.
 
 (* premises of [C07_interrupt_recovery_proof] and [C07_converges_after_recovery_proof] *)
@@ -1185,6 +1457,23 @@ Theorem C07_histories_nonvacuous_proof :
 Proof.
   cbn zeta. split; [reflexivity|]. split; [reflexivity|].
   split; [eexists; vm_compute; reflexivity|]. split; [reflexivity|]. split; [reflexivity|].
-  eexists. split; vm_compute; reflexivity.
+  eexists. split; [vm_compute; reflexivity|vm_compute; reflexivity].
+Qed.
+
+(* premises of [C07_kill_recovery_stmt_proof]: the compile is killed between its two log entries and
+   again while its re-run has half written both outputs; x.o holds garbage under a valid NEW entry
+   ([taint_safe] is false), x.map's old entry is stale ([taint_safe_stmt] is true) *)
+Theorem C07_kill_recovery_stmt_nonvacuous_proof :
+  let h := ExK.pre ++ [BuildK ExK.T ExK.cp2; BuildK ExK.T (mkCP 1 (KWrote 2 ExK.garbage))] in
+  khist_ok ExK.g h = true /\
+  tainted (run_khist ExK.cmd ExK.g ExK.st0 h) 3%nat = true /\
+  taint_safe ExK.g (run_khist ExK.cmd ExK.g ExK.st0 h) = false /\
+  taint_safe_stmt ExK.g (run_khist ExK.cmd ExK.g ExK.st0 h) = true /\
+  exists st', build ExK.cmd ExK.g (run_khist ExK.cmd ExK.g ExK.st0 h) ExK.T = Some st' /\
+              reach ExK.g ExK.T 3%nat /\ content_of st' 3%nat = clean_of ExK.cmd ExK.g st' 3%nat.
+Proof.
+  cbn zeta. split; [vm_compute; reflexivity|]. split; [vm_compute; reflexivity|].
+  split; [vm_compute; reflexivity|]. split; [vm_compute; reflexivity|].
+  eexists. split; [vm_compute; reflexivity|]. split; [exact ExK_reach_xo|vm_compute; reflexivity].
 Qed.
 
